@@ -1,7 +1,7 @@
 use std::fmt;
 use std::io::Write;
 
-use http::{HeaderName, HeaderValue, Method};
+use http::{HeaderMap, HeaderName, HeaderValue, Method};
 
 use crate::chunk::Dechunker;
 use crate::util::{compare_lowercase_ascii, log_data, Writer};
@@ -296,17 +296,17 @@ impl BodyReader {
     //     Ok(ret)
     // }
 
-    pub fn for_response<'a>(
+    pub fn for_response(
         http10: bool,
         method: &Method,
         status_code: u16,
-        header_lookup: &'a dyn Fn(&str) -> Option<&'a str>,
+        headers: &HeaderMap,
     ) -> Result<Self, Error> {
         let is_success = (200..=299).contains(&status_code);
         let is_informational = (100..=199).contains(&status_code);
         let is_redirect = (300..=399).contains(&status_code) && status_code != 304;
 
-        let header_defined = Self::header_defined(http10, header_lookup)?;
+        let header_defined = Self::header_defined(http10, headers)?;
 
         // Implicitly we know that CloseDelimited means no header indicated that
         // there was a body.
@@ -338,12 +338,10 @@ impl BodyReader {
         Ok(header_defined)
     }
 
-    fn header_defined<'a>(
-        http10: bool,
-        header_lookup: &'a dyn Fn(&str) -> Option<&'a str>,
-    ) -> Result<Self, Error> {
+    fn header_defined(http10: bool, headers: &HeaderMap) -> Result<Self, Error> {
         let mut content_length: Option<u64> = None;
-        let mut chunked = false;
+
+        let header_lookup = |name: &str| headers.get(name).and_then(|v| v.to_str().ok());
 
         // for head in headers {
         if let Some(value) = header_lookup("content-length") {
@@ -356,13 +354,14 @@ impl BodyReader {
             content_length = Some(v);
         }
 
-        if let Some(value) = header_lookup("transfer-encoding") {
-            // Header can repeat, stop looking if we found "chunked"
-            chunked = value
-                .split(',')
-                .map(|v| v.trim())
-                .any(|v| compare_lowercase_ascii(v, "chunked"));
-        }
+        // Header can repeat (the field lines form one list), stop looking if we found "chunked"
+        let chunked = headers
+            .get_all("transfer-encoding")
+            .iter()
+            .filter_map(|v| v.to_str().ok())
+            .flat_map(|v| v.split(','))
+            .map(|v| v.trim())
+            .any(|v| compare_lowercase_ascii(v, "chunked"));
 
         if chunked && !http10 {
             // https://datatracker.ietf.org/doc/html/rfc2616#section-4.4
